@@ -227,6 +227,8 @@ pub struct Ctx {
     /// plain thread with `plain_pool_threads` free global workers.
     pub use_pool_thread: bool,
     pub plain_pool_threads: usize,
+    /// proptest shrink budget of the following sections (0 for cases that cost minutes each)
+    pub max_shrink_iters: u32,
     pub replay_path: Option<String>,
     pub unconfirmed_timeouts: u32,
     start: Instant,
@@ -355,6 +357,7 @@ impl Ctx {
             case_timeout_s: None,
             use_pool_thread: true,
             plain_pool_threads: 3,
+            max_shrink_iters: 3000,
             replay_path: None,
             unconfirmed_timeouts: 0,
             start: Instant::now(),
@@ -515,10 +518,11 @@ impl Ctx {
             let stop = std::sync::atomic::AtomicBool::new(false);
             let (cov, fail, known_seen) = {
                 let (check, make_strategy, known_sigs, stop) = (&check, &make_strategy, &known_sigs, &stop);
+                let msi = self.max_shrink_iters;
                 if self.use_pool_thread {
-                    in_pool(move || run_shard(n, seed, make_strategy(), check, known_sigs, stop))
+                    in_pool(move || run_shard(n, seed, make_strategy(), check, known_sigs, stop, msi))
                 } else {
-                    run_shard(n, seed, make_strategy(), check, known_sigs, stop)
+                    run_shard(n, seed, make_strategy(), check, known_sigs, stop, msi)
                 }
             };
             let res = ShardResult {
@@ -581,7 +585,8 @@ impl Ctx {
                 let seed = self.section_seed(name, sh as u64);
                 let (cov, fail, ks) = {
                     let (check, make_strategy, known_sigs, stop) = (&check, &make_strategy, &known_sigs, &stop);
-                    in_pool(move || run_shard(n, seed, make_strategy(), check, known_sigs, stop))
+                    let msi = self.max_shrink_iters;
+                    in_pool(move || run_shard(n, seed, make_strategy(), check, known_sigs, stop, msi))
                 };
                 results.push((cov, fail.map(|(c, f)| (serde_json::to_value(&c).unwrap_or(Value::Null), f)), ks));
             }
@@ -830,6 +835,7 @@ fn run_shard<C, F>(
     check: &F,
     known_sigs: &[String],
     stop: &std::sync::atomic::AtomicBool,
+    max_shrink_iters: u32,
 ) -> (Cov, Option<(C, Fail)>, Vec<String>)
 where
     C: Serialize + std::fmt::Debug + Clone + 'static,
@@ -843,7 +849,7 @@ where
     let config = Config {
         cases,
         failure_persistence: None,
-        max_shrink_iters: 3000,
+        max_shrink_iters,
         max_global_rejects: 1 << 20,
         max_local_rejects: 1 << 20,
         ..Config::default()
